@@ -254,6 +254,9 @@ ENUMS = [
     ["DEnum", [["PNone"]]],
     ["DEnum", [["PComplex", F(1.0), F(0.0)], S("12")]],
 ]
+# Map on a dict that the caller extends AFTER the trait was defined (the last items; the first d[3] are there from the start)
+GROWN_MAPS = [["DMap", [[S("a"), ["PInt", 1]], [["PInt", 1], ["PInt", 2]], [S("blue"), ["PInt", 7]], [["PNone"], S("x")]], "grow", 2],
+              ["DMap", [[S("yes"), ["PBool", True]], [S("no"), ["PBool", False]], [["PInt", 5], ["PInt", 5]]], "grow", 1]]
 MAPS = [
     ["DMap", [[S("a"), ["PInt", 1]], [["PInt", 1], ["PInt", 2]]]],
     ["DMap", [[["PFloat", F(0.5)], S("a")], [["PNone"], ["PInt", 0]], [["PTuple", [["PInt", 1], ["PInt", 2]]], S("abc")]]],
@@ -309,12 +312,15 @@ ARRAYS = [["DArray", None, None, 4], ["DArray", 30, None, 4], ["DArray", 33, [3]
           ["DArray", 30, [[2, 3], 3], 4], ["DArray", 30, [[2, None], None], 4], ["DArray", 33, None, 2],
           ["DArray", 31, None, 3], ["DArray", 30, None, 0], ["DArray", 34, [[0, 2]], 3], ["DArray", None, [2, None], 4],
           # parametrised dtypes: <U1 / <U3 / S2, little vs big endian float64 (ids 36, 38, 41, 30 vs 40)
-          ["DArray", 36, None, 4], ["DArray", 38, None, 2], ["DArray", 36, None, 2], ["DArray", 40, None, 4]]
+          ["DArray", 36, None, 4], ["DArray", 38, None, 2], ["DArray", 36, None, 2], ["DArray", 40, None, 4],
+          # an axis that must be EMPTY (size 0 is falsy in Python)
+          ["DArray", 30, [0, 3], 4], ["DArray", None, [0], 4], ["DArray", 33, [None, 0], 4], ["DArray", 30, [[0, 0], 3], 4]]
 ARRAY_VALUES = [["PArray", 30, [3], 0], ["PArray", 30, [2, 3], 1], ["PArray", 33, [3, 2], 0], ["PArray", 30, [2], 2],
                 ["PArray", 34, [3], 1], ["PArray", 30, [4, 3], 0], ["PArray", 30, [1, 3], 0], ["PArray", 36, [2], 0],
                 ["PArray", 30, [2, 3, 1], 0], ["PArray", 32, [3], 0], ["PArray", 31, [2, 3], 0], ["PArray", 35, [3], 0],
                 ["PArray", 37, [3], 0], ["PArray", 30, [0], 0], ["PArray", 33, [3], 3],
                 ["PArray", 38, [2], 0], ["PArray", 40, [3], 0], ["PArray", 41, [2], 1], ["PArray", 36, [3], 1],
+                ["PArray", 30, [0, 3], 0], ["PArray", 30, [5, 3], 0], ["PArray", 33, [2, 0], 0], ["PArray", 33, [2, 1], 0],
                 ["PList", [["PInt", 1], ["PInt", 2], ["PInt", 5]]], ["PTuple", [["PFloat", F(1.5)], ["PInt", 2]]],
                 ["PList", [["PList", [["PInt", 1], ["PInt", 2]]], ["PList", [["PInt", 2], ["PInt", 5]]]]],
                 ["PList", [["PList", [["PInt", 1], ["PInt", 2], ["PInt", 5]]], ["PList", [["PInt", 0], ["PInt", 5], ["PInt", 12]]]]],
